@@ -60,7 +60,7 @@ def extra(ctx):
 
 SPEC = semprop.Spec(
     prop="C15", programs=programs, oracles=(), extra=extra,
-    theorems=["C15_refuted_comma", "C15_refuted_goto", "C15_refuted_label", "C15_refuted", "C15_rejects_while_do_switch"],
+    theorems=["C15_was_dropped_comma", "C15_fixed_comma", "C15_fixed_goto", "C15_fixed_label", "C15_rejects_while_do_switch"],
     note="each unsupported construct at every statement position around supported code; oracle: a program containing a construct of the "
          "property's list must be rejected (known findings: the five constructs that are dropped)",
 )
